@@ -21,14 +21,14 @@ RULE = ('rows = (rule set over names {a,b,default} each absent/@/!/role:x/role:y
         'not defined in the rule set (the fallback decides); distinct = distinct row. Stratum `mutation`: the same table re-checked after the '
         'rule set of a living enforcer changed (merge without overwrite, direct store update, item assignment / deletion, overwrite, '
         'file reload in non-overwrite mode), against the CURRENT rule set. Stratum `registered`: a registered default that no file mentions stays '
-        'defined (never decided by the default rule) through histories of policy.d edits, deletions and forced reloads, with and without a main file.')
+        'defined (never decided by the default rule) through histories of policy.d edits, deletions and forced reloads, with and without a main file. Stratum `overlap`: two decisions on one enforcer at the same time (second one runs at sampled line boundaries of the first, deterministic scheduler), each decided as the table says.')
 ASSUMPTIONS = ['rule bodies contain no rule: references (reference cycles through the default are C06/C13 territory)',
                'role:x / role:y / @ / ! leaves evaluate as C01/C04 state']
 LEVEL_TEXT = ('The complete decision table of the statement (about 1.3e5 rows) is driven through the real enforcer and '
               'compared row by row; a finite quantifier, so enumeration is the right level.')
 LEVEL_NOTE = 'trusted: the 12-line reference function; the name/role universe is small by design'
 PLAN = {'quick': dict(shards=4, wall=90), 'thorough': dict(shards=8, wall=300)}
-MIN = {'registered_decisions': 2000, 'mutation_decisions': 20000, 'evaluations': 10000, 'fallback_rows': 2000, 'allow_decisions': 1000, 'deny_decisions': 1000}
+MIN = {'overlapping_evaluations': 200, 'registered_decisions': 2000, 'mutation_decisions': 20000, 'evaluations': 10000, 'fallback_rows': 2000, 'allow_decisions': 1000, 'deny_decisions': 1000}
 ANCHORS = ['oslo_policy.policy:Rules.__missing__', 'oslo_policy.policy:Enforcer.enforce',
            'oslo_policy.policy:Enforcer.set_rules', 'oslo_policy.policy:Rules.__init__']
 REQUIRED_ANCHORS = ['oslo_policy.policy:Enforcer.enforce']
@@ -298,6 +298,43 @@ def check_registered(ctx, case):
         tree.cleanup()
 
 
+def check_overlap(ctx, case):
+    """Two decisions on one enforcer at the same time (an unknown name falling back to the default rule while a defined
+    name is decided, two different unknown names, ...): each is decided as the table says, as if it ran alone."""
+    from pv.mon import overlap
+    rules, dcfg, via = case['rules'], case['dcfg'], case['via']
+    enf, tree = build(rules, dcfg, via)
+    try:
+        (qa, ra), (qb, rb) = case['a'], case['b']
+        ctx.case(['overlap', rules, dcfg, via, case['a'], case['b']], True, 'overlap')
+        want = [['returned', reference(rules, dcfg, qa, ra)], ['returned', reference(rules, dcfg, qb, rb)]]
+        detail = {'rules': rules, 'default_config': dcfg, 'installed_via': via, 'decision_a': case['a'], 'decision_b': case['b'], 'expected': want}
+        if overlap.enforce_pair(ctx, enf, (qa, {}, {'roles': list(ra)}, {}), enf, (qb, {}, {'roles': list(rb)}, {}), case, detail,
+                                ctx.sub_rnd('Ob', case['rseed'])):
+            got = [overlap.outcome(lambda: enf.enforce(qa, {}, {'roles': list(ra)})), overlap.outcome(lambda: enf.enforce(qb, {}, {'roles': list(rb)}))]
+            if got != want:
+                ctx.violation('defined-name-decided-by-something-else' if qa in rules and got[0] != want[0] else 'usable-default-not-applied',
+                              case, dict(detail, observed=got))
+    finally:
+        if tree:
+            tree.cleanup()
+
+
+def gen_overlap(ctx, i):
+    r = ctx.sub_rnd('O', ctx.tier, ctx.shard, i)
+    while True:
+        rules = {k: v for k, v in (('a', r.choice(BODIES)), ('b', r.choice(BODIES)), ('default', r.choice(BODIES))) if v is not None}
+        if rules:
+            break
+    qs = [r.choice(QUERIES), r.choice(['ghost', 'zzz'] + QUERIES)]
+    r.shuffle(qs)
+    return dict(overlap=True, rules=rules, dcfg=r.choice(DCFGS), via=r.choice(VIAS), a=[qs[0], r.choice(CREDS)], b=[qs[1], r.choice(CREDS)],
+                rseed='%s.%d.%d' % (ctx.tier, ctx.shard, i))
+
+
+OVERLAPS = {'quick': 10, 'thorough': 200}
+
+
 def run(ctx):
     contracts.missing_never_none()
     idx = 0
@@ -359,12 +396,24 @@ def run(ctx):
                             check_registered(ctx, dict(registered=True, main=main, dir0=dir0, dir1=dir1, reg=reg, steps=steps))
     ctx.stratum('registered', exhaustive=True)
     ctx.sample(dict(rules={'a': 'role:x', 'default': '@'}, dcfg='unset', mutation='merge-set_rules', change={'default': '!'}), 'mutation')
+    # ---- two overlapping decisions, last (the line-level scheduler slows everything that runs after it is installed)
+    from pv.mon import sched
+    ctx.stratum('overlap', exhaustive=False)
+    try:
+        for i in range(OVERLAPS[ctx.tier]):
+            if ctx.expired():
+                break
+            check_overlap(ctx, gen_overlap(ctx, i))
+    finally:
+        sched.uninstall()
     for k, v in contracts.EVALS.items():
         ctx.count('contract_evals.' + k, v)
 
 
 def replay(ctx, case):
     contracts.missing_never_none()
+    if case.get('overlap'):
+        return check_overlap(ctx, case)
     if 'mutation' in case:
         return check_mutation(ctx, case)
     if case.get('registered'):
